@@ -203,7 +203,14 @@ class Comparer:
         else:
             if type(py) is not type(sc) or py != sc:
                 # distinguish 1 / 1.0 / True and -0.0 / 0.0 as ast.dump does
-                self.fail(owner, field, py, sc)
+                cell = None
+                if isinstance(py, str) and isinstance(sc, str) and field in ("id", "attr", "arg",
+                                                                              "name"):
+                    import unicodedata
+
+                    if unicodedata.normalize("NFKC", sc) == py:
+                        cell = "identifier-not-NFKC-normalised"
+                self.fail(owner, field, py, sc, cell=cell)
             if isinstance(py, (float, complex)) and repr(py) != repr(sc):
                 self.fail(owner, field, py, sc)
 
